@@ -331,6 +331,20 @@ def run(run):
                 run.case(('seq', tuple(sorted(present)), tuple(hist)))
                 if len(run.samples) < 3 and rep == 0 and len(present) == 5:
                     run.sample({'initial': sorted(present), 'history': hist})
+        # the error type's own constructor (documented: initial values of
+        # the attributes of the same names)
+        if run.shard == 0:
+            e = YggdrasilError('msg', 418, 'Err', 'Msg', 'Cause')
+            run.count('error_constructor_probes')
+            if (str(e), e.status_code, e.yggdrasil_error, e.yggdrasil_message,
+                    e.yggdrasil_cause) != ('msg', 418, 'Err', 'Msg', 'Cause') \
+                    or YggdrasilError().status_code is not None:
+                run.violation('error/constructor', 'YggdrasilError does not '
+                              'keep the values it is constructed with', {
+                                  'got': (str(e), e.status_code,
+                                          e.yggdrasil_error,
+                                          e.yggdrasil_message,
+                                          e.yggdrasil_cause)})
         # predicate over all 32 states (no I/O)
         if run.shard == 0:
             for present in subsets:
